@@ -51,6 +51,7 @@ structure OpInfo where
   relVal : Option Nat := none
   commitVal : Option Nat := none
   done : Option (Nat × Bool) := none    -- wdone position, ok
+  undeliv : Bool := false               -- the committed value cannot be deserialized by the owner's endpoint
   err : Bool := false
 deriving Inhabited
 
@@ -312,6 +313,7 @@ def processTrace (variant : Variant) (name : String) (lines : Array String) : IO
     | "e" :: "wdrop" :: _ => ops := upd ops (natArg w 2) (fun o => { o with rel := some i })
     | "e" :: "wdone" :: _ => ops := upd ops (natArg w 2) (fun o => { o with done := some (i, w[3]? == some "ok") })
     | "e" :: "rerr" :: _ | "e" :: "werr" :: _ => ops := upd ops (natArg w 2) (fun o => { o with err := true })
+    | "undeliverable" :: _ => ops := upd ops (natArg w 1) (fun o => { o with undeliv := true })
     | "crash" :: _ | "panic" :: _ => crashed := true
     | _ => pure ()
   let neps := maxE + 2
@@ -387,7 +389,7 @@ def processTrace (variant : Variant) (name : String) (lines : Array String) : IO
       if !dead.contains (epOfOp (natArg w 2)) then
         res := res.fail "err" s!"line={i} request {natArg w 2} failed although the owner is alive and its connection is up"
     | "e" :: "wdone" :: _ =>
-      if w[3]? != some "ok" && !dead.contains (epOfOp (natArg w 2)) then
+      if w[3]? != some "ok" && !dead.contains (epOfOp (natArg w 2)) && !((ops.get? (natArg w 2)).getD {}).undeliv then
         res := res.fail "err" s!"line={i} commit of {natArg w 2} failed although the owner is alive and its connection is up"
     | "hang" :: _ => hangs := hangs ++ [(natArg w 1, w[2]?.getD "?", w[3]?.getD "?")]
     | _ => pure ()
